@@ -32,15 +32,48 @@ Inductive tbatch : kst -> kst -> Prop :=
     tbatch (pend_step tb h s) s' -> tbatch s s'.
 
 (* HYPOTHESES on the numeric maps (through the oracle), on a complete network: at every event of the
-   batch every node other than the firing one is moved to a function of its own pending time, and the firing
-   node goes to nxt *)
+   batch every node other than the firing one THAT IS NOT ITSELF DUE NOW is moved to a function of its own
+   pending time, and the firing node goes to nxt.  What happens to a node that is due now is not a hypothesis:
+   the model passes it over (due_now_kept), given only that round(x, 5) of exactly 1 is 1. *)
 Hypothesis cascade_functional : forall s h n, reach s -> head (queue s) = Some h -> e_live h = true -> e_time h = T ->
-  e_elem h = EN n -> forall m, m <> n -> ptime (pend_step tb h s) m = option_map upd (ptime s m).
+  e_elem h = EN n -> forall m, m <> n -> ptime s m <> Some T -> ptime (pend_step tb h s) m = option_map upd (ptime s m).
 Hypothesis refire_at : forall s h n, reach s -> head (queue s) = Some h -> e_live h = true -> e_time h = T ->
   e_elem h = EN n -> ptime (pend_step tb h s) n = Some nxt.
 Hypothesis nxt_ne : nxt <> T.
-Hypothesis upd_due : upd T = T \/ upd T = nxt.
 Hypothesis upd_fired : upd nxt = nxt.
+
+Lemma Qleib_dec (a b : Q) : {a = b} + {a <> b}.
+Proof. decide equality; [apply Pos.eq_dec|apply Z.eq_dec]. Qed.
+Lemma optQ_dec (a b : option Q) : {a = b} + {a <> b}.
+Proof. decide equality. apply Qleib_dec. Qed.
+
+(* the update of the batch: a node due now stays due now, any other goes where the hypothesis says *)
+Definition upd' (x : Q) : Q := if Qleib_dec x T then T else upd x.
+Lemma upd'_due : upd' T = T.
+Proof. unfold upd'. destruct (Qleib_dec T T); [reflexivity|contradiction]. Qed.
+Lemma upd'_other x : x <> T -> upd' x = upd x.
+Proof. intros H. unfold upd'. destruct (Qleib_dec x T); [contradiction|reflexivity]. Qed.
+
+(* PROVED from the model (after the repair that cascade tests the phase, not the state): when the event of a node n
+   fires at T, any other node whose firing is pending at T is still pending at T afterwards: cascade reads its phase
+   normalisePhase(1 - (T - T) / period), the rounding of exactly 1, and passes it over *)
+Lemma due_now_kept s h n m : reach s -> head (queue s) = Some h -> e_live h = true -> e_time h = T -> e_elem h = EN n ->
+  good ub (pw_reqs (world s)) -> round_one (pw_reqs (world (pend_step tb h s))) ->
+  m <> n -> ptime s m = Some T -> ptime (pend_step tb h s) m = Some T.
+Proof.
+  intros R Hh Hl Ht He Hg Hr Hmn Hp.
+  pose proof (reach_Inv cfg ub ub_mono period_nonneg oracle orders s R Hg) as P.
+  destruct (head_is_fentry cfg ub s h P (head_in _ _ Hh) Hl) as [n' [k' [T' [En Eh]]]].
+  assert (Hprog : e_prog h = prog_fired) by (rewrite Eh; reflexivity).
+  pose proof (pend_step_world cfg oracle orders h s Hprog) as HW. rewrite He, Ht in HW.
+  unfold ptime in *. rewrite HW in Hr |- *.
+  destruct (ev_look (pw_ev (world s)) m) as [[k x]|] eqn:Em; [|discriminate].
+  cbn [option_map snd] in Hp. injection Hp as ->.
+  destruct (fired_prog cfg T (EN n) (loci s) (world s)) as [w' acts] eqn:EF. cbn [fst] in *.
+  rewrite <- ev_of_look.
+  rewrite (fired_prog_due_kept cfg T n _ _ w' acts m k EF Hmn); [reflexivity| |exact Hr].
+  rewrite ev_of_look. exact Em.
+Qed.
 
 Lemma tbatch_reqs s s' : tbatch s s' -> exists l, pw_reqs (world s') = l ++ pw_reqs (world s).
 Proof.
@@ -49,15 +82,17 @@ Proof.
   exists (l1 ++ l2). rewrite H1, H2, app_assoc. reflexivity.
 Qed.
 
-Lemma tbatch_batch s s' : reach s -> tbatch s s' -> good ub (pw_reqs (world s')) ->
-  batch Z (option Q) (Some T) (Some nxt) (option_map upd) (ptime s) (ptime s').
+Lemma tbatch_batch s s' : reach s -> tbatch s s' -> good ub (pw_reqs (world s')) -> round_one (pw_reqs (world s')) ->
+  batch Z (option Q) (Some T) (Some nxt) (option_map upd') (ptime s) (ptime s').
 Proof.
-  intros R H. revert R. induction H as [s|s s' _ IH|s h s' Hh Hl Ht Hb IH]; intros R Hg.
+  intros R H. revert R. induction H as [s|s s' _ IH|s h s' Hh Hl Ht Hb IH]; intros R Hg Hr.
   - apply b_nil.
-  - apply IH; [apply rc_discard, R|exact Hg].
+  - apply IH; [apply rc_discard, R|exact Hg|exact Hr].
   - destruct (tbatch_reqs _ _ Hb) as [l1 H1]. destruct (pend_step_reqs cfg oracle orders h s) as [l2 H2].
     assert (Hg0 : good ub (pw_reqs (world s))).
     { rewrite H1, H2 in Hg. eapply good_app, good_app. exact Hg. }
+    assert (Hr1 : round_one (pw_reqs (world (pend_step tb h s)))).
+    { rewrite H1 in Hr. eapply round_one_app. exact Hr. }
     pose proof (reach_Inv cfg ub ub_mono period_nonneg oracle orders s R Hg0) as P.
     destruct (head_is_fentry cfg ub s h P (head_in _ _ Hh) Hl) as [n [k [T' [En Eh]]]].
     assert (He : e_elem h = EN n) by (rewrite Eh; reflexivity).
@@ -66,22 +101,23 @@ Proof.
     + split; [|split].
       * unfold ptime. rewrite En. cbn. rewrite HT. reflexivity.
       * apply (refire_at s h n R Hh Hl Ht He).
-      * intros m Hm. apply (cascade_functional s h n R Hh Hl Ht He m Hm).
-    + apply IH; [apply rc_event; assumption|exact Hg].
+      * intros m Hm. destruct (optQ_dec (ptime s m) (Some T)) as [E|NE].
+        -- rewrite E. cbn [option_map]. rewrite upd'_due. apply (due_now_kept s h n m R Hh Hl Ht He Hg0 Hr1 Hm E).
+        -- rewrite (cascade_functional s h n R Hh Hl Ht He m Hm NE).
+           destruct (ptime s m) as [x|]; [|reflexivity]. cbn [option_map]. rewrite upd'_other; [reflexivity|].
+           intros ->. apply NE. reflexivity.
+    + apply IH; [apply rc_event; assumption|exact Hg|exact Hr].
 Qed.
 
-Lemma optQ_dec (a b : option Q) : {a = b} + {a <> b}.
-Proof. repeat decide equality. Qed.
-
 (* two nodes with equal pending times have equal pending times once every firing at T has happened *)
-Theorem sync_absorbing_model s s' a b : reach s -> tbatch s s' -> good ub (pw_reqs (world s')) ->
+Theorem sync_absorbing_model s s' a b : reach s -> tbatch s s' -> good ub (pw_reqs (world s')) -> round_one (pw_reqs (world s')) ->
   (forall m, ptime s' m <> Some T) -> ptime s a = ptime s b -> ptime s' a = ptime s' b.
 Proof.
-  intros R Hb Hg Hend E.
-  apply (batch_sync_absorbing Z (option Q) (Some T) (Some nxt) (option_map upd)) with (p := ptime s).
+  intros R Hb Hg Hr Hend E.
+  apply (batch_sync_absorbing Z (option Q) (Some T) (Some nxt) (option_map upd')) with (p := ptime s).
   - intros H. apply nxt_ne. congruence.
-  - cbn. destruct upd_due as [U|U]; rewrite U; [left|right]; reflexivity.
-  - cbn. rewrite upd_fired. reflexivity.
+  - left. cbn [option_map]. rewrite upd'_due. reflexivity.
+  - cbn [option_map]. rewrite (upd'_other nxt nxt_ne), upd_fired. reflexivity.
   - apply Z.eq_dec.
   - apply tbatch_batch; assumption.
   - exact Hend.
@@ -89,13 +125,13 @@ Proof.
 Qed.
 
 (* hence the number of distinct pending times does not increase and no synchronised group shrinks *)
-Theorem sync_counts_model s s' : reach s -> tbatch s s' -> good ub (pw_reqs (world s')) ->
+Theorem sync_counts_model s s' : reach s -> tbatch s s' -> good ub (pw_reqs (world s')) -> round_one (pw_reqs (world s')) ->
   (forall m, ptime s' m <> Some T) ->
   (ndistinct Z (option Q) optQ_dec (pc_nodes cfg) (ptime s') <= ndistinct Z (option Q) optQ_dec (pc_nodes cfg) (ptime s))%nat
   /\ forall a, In a (pc_nodes cfg) ->
        (group Z (option Q) optQ_dec (pc_nodes cfg) (ptime s) a <= group Z (option Q) optQ_dec (pc_nodes cfg) (ptime s') a)%nat.
 Proof.
-  intros R Hb Hg Hend.
+  intros R Hb Hg Hr Hend.
   assert (A : forall a b, In a (pc_nodes cfg) -> In b (pc_nodes cfg) -> ptime s a = ptime s b -> ptime s' a = ptime s' b).
   { intros a b _ _. apply sync_absorbing_model; assumption. }
   split; [apply distinct_not_increasing, A|]. intros a Ha. apply group_not_shrinking; assumption.
